@@ -9,6 +9,30 @@
 // decoder and by its reader in pure-barcode mode. The mode-switch trace of every produced
 // stream is read off its codewords; the number of distinct (trace, symbol size) pairs is the
 // measure of how much of the machine the exploration has reached.
+//
+// Families (all enumerated completely, see the Range names for the exact bounds):
+//
+//	(g) literal regression strings
+//	(a) all strings up to length 5/6 over Sigma_DM; (a') length 5..9/11 over five 4-symbol alphabets
+//	(f) the encoder made resident in one mode by a prefix, then every continuation up to 9..11
+//	    (the shortest inputs that keep EDIFACT / X12 over a foreign character are 16-18 long)
+//	(d) macro 05/06 envelopes and near misses   (e) texts with a rune > U+00FF
+//	(c) shape x (MIN_SIZE, MAX_SIZE) x short strings, with "fits => symbol"
+//	(b) homogeneous runs that fill each of the 30 sizes exactly, +-1, +-2, with every tail
+//
+// Violation keys (one per root cause as far as it can be told from outside):
+//
+//	C02/hang/<mode>-<error class>                 EncodeHighLevel does not return
+//	C02/encoder/errors-discarded/<mode>-<class>   wrong symbol after a mode encoder's error was dropped
+//	C02/fits-but-refused/<mode>-<class>           error for a text that certainly fits
+//	C02/base256/exact-fill, C02/<mode>/eod-<plain|extended>, C02/desync/<m>-read-as-<m>,
+//	C02/dropped/<mode>, C02/stream/wrong-text/<mode>, C02/stream/ref-rejects/<mode>   the stream does not carry the text
+//	C02/stream/padding, C02/stream/length-not-a-symbol-capacity, C02/hints/<which>, C02/matrix/*, C02/image/*
+//	C02/decoder/latin1-raw-bytes, C02/decoder/rejects/<mode>, C02/decoder/wrong-text/<mode>   correct stream, wrong reading
+//	C02/refuse/non-latin1, C02/panic/<site>
+//
+// Environment: C02_ONLY=<family,...> (regression short sub4 resident macro nonlatin1 hints
+// capacity) runs a subset for development; such a run is marked incomplete.
 package main
 
 import (
